@@ -164,6 +164,7 @@ func checkC04(p *Program, r *Report) {
 		}
 	}
 	c04Recursion(p, r, g, reach)
+	c04ReflectKeys(p, r, reach)
 }
 
 func describeVal(v ssa.Value) string {
@@ -563,4 +564,189 @@ func targetsIgnoreNil(p *Program, targets []*ssa.Function, inComp map[*ssa.Funct
 		}
 	}
 	return len(targets) > 0
+}
+
+// c04ReflectKeys: reflect.MapOf panics when the key type is not comparable. For every call in a
+// decode-reachable function the possible key types are resolved (through ensureNillable and the
+// results of PreferredGoType: package-level reflect.Type values resolved to their static types,
+// reflect.SliceOf/MapOf results) and must all be comparable, unless the call is dominated by a
+// successful Comparable() test of that key.
+func c04ReflectKeys(p *Program, r *Report, reach map[*ssa.Function]bool) {
+	var fns []*ssa.Function
+	for f := range reach {
+		fns = append(fns, f)
+	}
+	sort.Slice(fns, func(i, j int) bool { return fns[i].String() < fns[j].String() })
+	// static type behind a reflect.Type global
+	typeOfGlobal := func(g *ssa.Global) types.Type {
+		initFn := g.Pkg.Func("init")
+		for _, b := range initFn.Blocks {
+			for _, ins := range b.Instrs {
+				st, ok := ins.(*ssa.Store)
+				if !ok || st.Addr != g {
+					continue
+				}
+				var resolve func(v ssa.Value) types.Type
+				resolve = func(v ssa.Value) types.Type {
+					call, ok := v.(*ssa.Call)
+					if !ok {
+						return nil
+					}
+					if f := call.Call.StaticCallee(); f != nil && f.String() == "reflect.TypeOf" {
+						if mi, ok := call.Call.Args[0].(*ssa.MakeInterface); ok {
+							return mi.X.Type()
+						}
+						return nil
+					}
+					if call.Call.IsInvoke() && call.Call.Method.Name() == "Elem" {
+						if t := resolve(call.Call.Value); t != nil {
+							if pt, ok := t.Underlying().(*types.Pointer); ok {
+								return pt.Elem()
+							}
+						}
+					}
+					return nil
+				}
+				return resolve(st.Val)
+			}
+		}
+		return nil
+	}
+	// possible kinds of a reflect.Type value: list of descriptions of non-comparable candidates,
+	// plus a flag when the value could not be resolved
+	var nonComparable func(v ssa.Value, seen map[ssa.Value]bool, depth int) (bad []string, unknown bool)
+	nonComparable = func(v ssa.Value, seen map[ssa.Value]bool, depth int) ([]string, bool) {
+		if seen[v] || depth > 8 {
+			return nil, false
+		}
+		seen[v] = true
+		switch x := v.(type) {
+		case *ssa.Phi:
+			var bad []string
+			unk := false
+			for _, e := range x.Edges {
+				b, u := nonComparable(e, seen, depth+1)
+				bad = append(bad, b...)
+				unk = unk || u
+			}
+			return bad, unk
+		case *ssa.Extract:
+			return nonComparable(x.Tuple, seen, depth+1)
+		case *ssa.UnOp:
+			if g, ok := x.X.(*ssa.Global); ok {
+				t := typeOfGlobal(g)
+				if t == nil {
+					return nil, true
+				}
+				if !types.Comparable(t) {
+					return []string{types.TypeString(t, relQual) + " (" + g.Name() + ")"}, false
+				}
+				return nil, false
+			}
+			return nil, true
+		case *ssa.Call:
+			f := x.Call.StaticCallee()
+			if f == nil {
+				return nil, true
+			}
+			switch f.String() {
+			case "reflect.SliceOf":
+				return []string{"a slice type (reflect.SliceOf)"}, false
+			case "reflect.MapOf":
+				return []string{"a map type (reflect.MapOf)"}, false
+			case "reflect.PtrTo", "reflect.PointerTo":
+				return nil, false
+			case "reflect.TypeOf":
+				if mi, ok := x.Call.Args[0].(*ssa.MakeInterface); ok {
+					if !types.Comparable(mi.X.Type()) {
+						return []string{types.TypeString(mi.X.Type(), relQual)}, false
+					}
+					return nil, false
+				}
+				return nil, true
+			}
+			if f.Pkg != nil && isModulePkg(f.Pkg.Pkg) && f.Blocks != nil {
+				if f.Name() == "ensureNillable" && len(x.Call.Args) == 1 {
+					// returns its argument, or a pointer to it (comparable)
+					return nonComparable(x.Call.Args[0], seen, depth+1)
+				}
+				var bad []string
+				unk := false
+				for _, b := range f.Blocks {
+					if ret, ok := b.Instrs[len(b.Instrs)-1].(*ssa.Return); ok && len(ret.Results) > 0 {
+						if k, ok := ret.Results[0].(*ssa.Const); ok && k.Value == nil {
+							continue
+						}
+						bb, u := nonComparable(ret.Results[0], seen, depth+1)
+						bad = append(bad, bb...)
+						unk = unk || u
+					}
+				}
+				return bad, unk
+			}
+			return nil, true
+		}
+		return nil, true
+	}
+	n := 0
+	for _, fn := range fns {
+		for _, b := range fn.Blocks {
+			for _, ins := range b.Instrs {
+				call, ok := ins.(*ssa.Call)
+				if !ok {
+					continue
+				}
+				f := call.Call.StaticCallee()
+				if f == nil || f.String() != "reflect.MapOf" {
+					continue
+				}
+				n++
+				key := fmt.Sprintf("%s MapOf#%d", fnKey(fn), n)
+				keyArg := call.Call.Args[0]
+				// guarded by Comparable()?
+				guarded := false
+				for d := b; d.Idom() != nil && !guarded; d = d.Idom() {
+					id := d.Idom()
+					ifi, ok := id.Instrs[len(id.Instrs)-1].(*ssa.If)
+					if !ok {
+						continue
+					}
+					cond := ifi.Cond
+					neg := false
+					if u, ok := cond.(*ssa.UnOp); ok && u.Op == token.NOT {
+						cond, neg = u.X, true
+					}
+					cc, ok := cond.(*ssa.Call)
+					if !ok || !cc.Call.IsInvoke() || cc.Call.Method.Name() != "Comparable" {
+						continue
+					}
+					same := cc.Call.Value == keyArg
+					if kc, ok := keyArg.(*ssa.Call); ok && len(kc.Call.Args) == 1 && kc.Call.Args[0] == cc.Call.Value {
+						same = true // tested before ensureNillable, which preserves comparability
+					}
+					if !same {
+						continue
+					}
+					succ := id.Succs[0]
+					if neg {
+						succ = id.Succs[1]
+					}
+					if succ == d || succ.Dominates(d) {
+						guarded = true
+					}
+				}
+				bad, unk := nonComparable(keyArg, map[ssa.Value]bool{}, 0)
+				switch {
+				case guarded:
+					r.OKf("reflect-key", key, call.Pos(), "dominated by a successful Comparable() test of the key type")
+				case len(bad) > 0:
+					r.Fail("reflect-key", key, call.Pos(), "reflect.MapOf is called with a key type that can be %s: not comparable, reflect.MapOf panics (a map whose CQL key type prefers that Go type, decoded into an untyped destination)", strings.Join(dedupStrings(bad), ", "))
+				case unk:
+					r.Fail("reflect-key", key, call.Pos(), "the key type passed to reflect.MapOf could not be resolved and no Comparable() test dominates the call")
+				default:
+					r.OKf("reflect-key", key, call.Pos(), "every possible key type is comparable")
+				}
+			}
+		}
+	}
 }
